@@ -147,7 +147,7 @@ def make_struct_members(xml_elem, dynamic_array=False):
     xml_elem_name = required(xml_elem, "name")
     xml_elem_type = required(xml_elem, "type")
     optional = xml_elem.get("optional")
-    optional = bool(optional) and optional.lower() == "true"
+    optional = bool(optional) and optional.strip().lower() not in ("false", "0")
     dimension = xml_elem.find("dimension")
     comment = get_docstr(xml_elem)
 
@@ -173,7 +173,7 @@ def make_struct_members(xml_elem, dynamic_array=False):
                 sizer_name = "numOf" + xml_elem_name[:1].upper() + xml_elem_name[1:]
                 yield model.StructMember(xml_elem_name, xml_elem_type, bound=sizer_name, docstring=comment)
 
-            elif dimension.get("isVariableSize", "false").lower() not in ("false", "0"):
+            elif dimension.get("isVariableSize", "false").strip().lower() not in ("false", "0"):
                 type_ = dimension.get("variableSizeFieldType", "u32")
                 sizer_name = dimension.get("variableSizeFieldName", xml_elem_name + "_len")
                 yield model.StructMember(sizer_name, type_, docstring=comment)
